@@ -1649,6 +1649,20 @@ def c15(res, wd):
         ps.append(_lead_plan(k, l, f, rng.randrange(1 << 30)))
     engines.obs_runs(res, "C15", ps, {"C15"}, wd, "c15", nontrivial=lambda st, pl: st["ticks"] >= 200,
                      cls_of=lambda p: "lead%d" % p["_k"])
+    # (2b) the peer that lagged k frames behind drops out: with no connected remote left frames_ahead is 0 again and
+    # no WaitRecommendation is raised any more (the closed-loop predicates need two live peers and are off here)
+    dps = []
+    for k in sizes(res.tier, [3, 5], [1, 2, 3, 4, 5, 6]):
+        q = _lead_plan(k, 16, 60, rng.randrange(1 << 30))
+        q["cfg"].pop("timesync")
+        q["cfg"]["timeout"] = 600
+        q["cfg"]["notify"] = 300
+        q["kills"] = [{"p": 1, "at_frame": 130}]
+        q["p_stats"] = 0.0           # network_stats for a dropped peer is an error by design
+        q["max_ms"] = 1200 + 6500
+        dps.append(q)
+    engines.obs_runs(res, "C15", dps, {"C15"}, wd, "c15d", nontrivial=lambda st, pl: st["discInputs"] >= 50,
+                     cls_of=lambda p: "lagdrop%d" % p["_k"])
     # (3) the recommendation gate is judged on every drained WaitRecommendation of these and all runs
     # (4) binding: random runs that query network_stats() at random points (also too early, for invalid handles,
     # on spectators) replayed through System.tla - result and all four figures must equal the specification's
